@@ -34,6 +34,8 @@ TrIP       == {"ip"}
 TrBoth     == {"ip", "scion"}
 ScmpAll    == {"unreach", "echorep", "param"}
 ScmpNone   == {}
+HdrAll     == {"sync", "li3", "str0", "str16"}
+HdrSync    == {"sync"}
 \* size facts the text of the property relies on (evaluated once by TLC)
 ASSUME ReqSize(PoolMax) = NtpLen + UidField + CookieField + AuthField(0)
 ASSUME \A p \in 1 .. PoolMax : ReqSize(p) = RespSize(1 + PoolMax - p)   \* placeholders reserve exactly the reply's room
